@@ -511,14 +511,27 @@ func (r *Runner) Run(scripts []*Script) []*ObResult {
 		retry = lim
 		sem := make(chan struct{}, r.Workers)
 		var wg2 sync.WaitGroup
+		stillBad := map[string]int{} // per obligation name: retries that stayed undecided
 		for _, res := range retry {
+			name := res.Ob.Func + "/" + res.Ob.Name
+			r.mu.Lock()
+			giveUp := stillBad[name] >= 8
+			r.mu.Unlock()
+			if giveUp {
+				continue // the same obligation stayed undecided in several instances: stop spending time on it
+			}
 			wg2.Add(1)
 			sem <- struct{}{}
-			go func(res *ObResult) {
+			go func(res *ObResult, name string) {
 				defer wg2.Done()
 				defer func() { <-sem }()
 				r.retry(header, res)
-			}(res)
+				if !res.OK() {
+					r.mu.Lock()
+					stillBad[name]++
+					r.mu.Unlock()
+				}
+			}(res, name)
 		}
 		wg2.Wait()
 	}
@@ -553,8 +566,8 @@ func (r *Runner) runJob(header string, sc *Script, insts [][]int, base int) []*O
 	}
 	run := func(sel []int, batch bool) (map[[2]int]rawResult, string, error, time.Duration, int) {
 		to := r.TimeoutMs
-		if ninst > 100 && to > 1500 {
-			to = 1500 // split instances are small queries; the individual retry uses the full timeout
+		if ninst > 100 && to > 3000 {
+			to = 3000 // split instances are small queries; the individual retry uses the full timeout
 		}
 		if batch {
 			sv = solverCmd(r.Primary, to/3)
